@@ -43,14 +43,16 @@ RULE = (
     "(label set, source colour, configuration) resp. (block, parameters, frame)"
 )
 ASSUMPTIONS = [
-    "multi-video label sets (each labelled frame is frame 0 of its own video) are part of the label-set alphabet: 4 two-video sets in quick, 25 in thorough",
+    "multi-video label sets (each labelled frame is frame 0 of its own video) are part of the label-set alphabet: 4 two-video sets in quick, 25 in thorough; "
+    "2 (quick) / 25 (thorough) of them again with videos of different frame sizes (48x64 and 44x56) and preprocessing.max_height or max_width "
+    "stated by the user with exactly the value both frameworks receive through max_hw (so both have the same documented target)",
     "litdata hand-over: in 'bin' mode the samples go through litdata's real BinaryWriter -> .bin chunks -> real "
     "litdata.StreamingDataset in ONE process; assumed: optimize()'s worker processes write what this writer writes. "
     "In 'stub' mode (fallback) litdata.StreamingDataset.__init__/__getitem__ are stubbed to hand the chunk function's "
     "dict back: assumed that litdata round-trips PIL images, tensors and ints unchanged.  The mode used is in bounds_completed.",
     "both dataset frameworks are told the size-matcher target through `max_hw` (as ModelTrainer does) with "
-    "data_config.preprocessing.max_height/max_width = None; a user-set max_height that ModelTrainer forwards only to the "
-    "chunk functions is outside this check (model_trainer.py is not an anchor of C18)",
+    "data_config.preprocessing.max_height/max_width = None or equal to that target; a user-set max_height DIFFERENT from the label-derived "
+    "size, which ModelTrainer forwards only to the chunk functions, is outside this check (model_trainer.py is not an anchor of C18)",
     "augmentation off (apply_aug=False): augmented samples are random and are C04's subject",
     "single-instance model only on label sets whose frames each hold exactly one non-empty instance after the "
     "user-instance filter; centred-instance model only at scale 1 (the two documentations prescribe different orders "
@@ -228,7 +230,7 @@ def work_frameworks(part, shard):
     try:
         for gi, (labelset, src_rgb, cases) in enumerate(shard):
             try:
-                slp = Hh.write_labelset(root, labelset, src_rgb, f"g{gi}", multi_video=bool(cases and cases[0].get("multi_video")))
+                slp = Hh.write_labelset(root, labelset, src_rgb, f"g{gi}", multi_video=(cases[0].get("multi_video", False) if cases else False))
             except Exception as e:  # sleap-io could not write the synthetic file: harness problem, not a finding
                 raise RuntimeError(f"cannot write label set {labelset} rgb={src_rgb}: {e}")
             for case in cases:
@@ -333,6 +335,15 @@ def run(ctx):
         cs = [dict(c, multi_video=True) for c in configs_small(list(ls), False, True, handover)]
         if cs:
             groups.append((list(ls), False, cs))
+    # ... and two-video sets whose videos have DIFFERENT frame sizes (the size matcher has real work to do on the smaller
+    # one), with the size target stated by the user for neither / one of the two dimensions
+    for ls in mv_sets[:2] if ctx.tier == "quick" else mv_sets:
+        cs = []
+        for ci, c in enumerate(configs_small(list(ls), False, True, handover, product=ctx.tier != "quick")):
+            for dim in (None, "height", "width") if ctx.tier != "quick" else ((None, "height", "width")[ci % 3], (None, "height", "width")[(ci + 1) % 3]):
+                cs.append(dict(c, multi_video="sizes", cfg_dim=dim))
+        if cs:
+            groups.append((list(ls), False, cs))
     n_cases = sum(len(g[2]) for g in groups)
     ctx.bounds = {
         "tier": ctx.tier,
@@ -401,7 +412,7 @@ def replay(case):
             except Exception as e:
                 errs = [f"raised {type(e).__name__}: {e}"]
             return {"violates": bool(errs), "errors": errs[:10]}
-        slp = Hh.write_labelset(root, case["labelset"], case["src_rgb"], "replay", multi_video=bool(case.get("multi_video")))
+        slp = Hh.write_labelset(root, case["labelset"], case["src_rgb"], "replay", multi_video=case.get("multi_video", False))
         sc = tempfile.mkdtemp(dir=root)
         errs, info = Hh.run_framework_case(case, slp, sc)
         return {"violates": bool(errs), "errors": errs[:10], "n_samples": info["n_samples"], "img_max": info.get("img_max"), "map_max": info.get("map_max")}
